@@ -947,9 +947,42 @@ def _oracle_seq(c, obs):
 	return None
 
 
+D63 = 'D63-q-separator-inside-quoted-string'
+D63_RE = re.compile(r';[ \t\n\r\x0b\x0c]*q[ \t\n\r\x0b\x0c]*=')
+
+
+def _d63_hit(el):
+	"""a media-range parameter (one that stands in front of the element's own quality value) whose value contains ';' blanks 'q' blanks '='"""
+	return any(D63_RE.search(v) for _, v in el['p'])
+
+
 def classify(c, o, fail):
-	"""no known finding is attached to C19 any more (D24 and both parts of D25 are repaired; their inputs are corpus cases)"""
-	return None
+	"""D24 and both parts of D25 are repaired (corpus cases).  D63: a listed field of well-formed elements that is refused, where an element has a quoted parameter value
+	containing the q separator in front of its own quality value, and where the same field with only the ';' of those values replaced by ':' is returned - so that a field
+	which is refused for any other reason (too) is not classified."""
+	if c.get('k') != 'elems' or 'want' not in c or not fail.startswith('valid-field-rejected:') or o.get('err') != 'invalid':
+		return None
+	want = c['want']
+	if not any(_d63_hit(el) for el in want):
+		return None
+	ctl = [dict(el, p=[[k, D63_RE.sub(lambda m: ':' + m.group(0)[1:], v)] for k, v in el['p']]) for el in want]
+	fv = ', '.join(_render2(e, style='quoted') for e in ctl).encode('ISO8859-1')
+	r = _elements(c.get('hname', c['name']), fv)
+	if 'es' not in r or _check_result({'fv': fv, 'want': ctl}, r, c['name']) is not None:
+		return None
+	return D63
+
+
+def _d63_case(name, els):
+	return {'k': 'elems', 'name': name, 'fv': ', '.join(_render2(e, style='quoted') for e in els).encode('ISO8859-1').hex(), 'want': els}
+
+
+# the known finding D63, replayed on every run (Accept: text/html;x=";q=0.1", text/plain;q=0.5 | Accept-Language: en;x=";q=1" | TE: trailers, deflate;x="a; q = high";q=0.5)
+WITNESSES = [
+	(D63, _d63_case('Accept', [_mk('text/html', None, [('x', ';q=0.1')]), _mk('text/plain', '0.5')])),
+	(D63, _d63_case('Accept-Language', [_mk('en', None, [('x', ';q=1')])])),
+	(D63, _d63_case('TE', [_mk('trailers'), _mk('deflate', '0.5', [('x', 'a; q = high')])])),
+]
 
 
 def nontrivial(c, o):
@@ -984,8 +1017,8 @@ TECHNIQUE = 'Coq proof on a Gallina model + vm_compute correspondence against th
 # Kept out on purpose (clean-tree behaviour that other properties own or that is no statement of C19):
 #  * runs of two or more backslashes and double quotes (escaped) in a quoted parameter value: known finding D17 (C09) - the unescape regex drops one backslash of every
 #    run, the quote-parity split regexes count escaped quotes;
-#  * NEW clean-tree finding of this round, reported to the lead and not generated: a quoted parameter value that contains the q separator (';' blanks 'q' blanks '=',
-#    e.g. en;x=";q=1" or x="; q=0.1") - RE_Q_SEPARATOR is not quote-aware, the element is cut inside the quoted-string and the whole valid field is refused;
+#  (a quoted parameter value that contains the q separator - ';' blanks 'q' blanks '=', e.g. en;x=";q=1" - was found in this round: RE_Q_SEPARATOR is not quote-aware, the
+#  element is cut inside the quoted-string and the whole valid field is refused.  It is the known finding D63: generated by _d63_cases, WITNESSES, classify.)
 #  * a parameter value that begins or ends with HT / VT / FF is composed unquoted and stripped when read again (compose direction, C09): such values are
 #    only read here, the composed text is not read back;
 #  * Headers([(name, v1), (NAME, v2)]): the constructor has dict semantics, the later pair replaces the earlier one (not field-line semantics);
@@ -1181,6 +1214,7 @@ def _wave5(rng, tier):
 		trio = [_mk(vals[0], spell(max(m - 1, 0))), _mk(vals[1], spell(m)), _mk(vals[2], spell(min(m + 1, 1000)))]
 		rng.shuffle(trio)
 		add(name, trio)
+	out.extend(_d63_cases(rng, big))
 	for pv in PVALS5:
 		for name in (NAMES if big else rng.sample(NAMES, 2)):
 			add(name, [_mk(VALUES[name][1], '0.3'), _mk(VALUES[name][0], rng.choice(['0.7', None]), [('x', pv)]), _mk(VALUES[name][2], '0.5', [('y', pv), ('z', '1')])], style='quoted')
@@ -1215,6 +1249,34 @@ def _wave5(rng, tier):
 		rng.shuffle(els2)
 		c2 = add(name, els2, nocoq=True)
 		out.append({'k': 'perm', 'name': name, 'fv': c['fv'], 'fv2': c2['fv']})
+	return out
+
+
+D63_TEXTS = [';q=0.1', '; q=0.1', ';q =0.9', ';\tq\t=\t1', ';q=high', ';q=', 'a;q=0.5', 'a; q = 0.5;b', ';q=0.5x', ' ;  q  =  0', ';q=1;q=0', 'q;q=nan']
+
+
+def _d63_cases(rng, big):
+	"""known finding D63: a quoted-string parameter value that contains ';' blanks 'q' blanks '=' - with a valid / malformed / empty number behind it, with blanks - in the
+	first / middle / last element of all five fields, the element with and without a quality value of its own.  Through the model (it follows RE_Q_SEPARATOR and agrees
+	with the implementation: the field is refused); the oracle demands the field, classify() maps exactly these refusals to D63.  Controls that must be returned: ';Q=' (the separator is
+	case-sensitive), the same texts as accept-ext value behind the element's own q, the separator without ';' in front."""
+	out = []
+	k = 0
+	for name in NAMES:
+		vals = VALUES[name]
+		for pos in range(3):
+			for rep in range(len(D63_TEXTS) if big else 3):
+				k += 1
+				txt = D63_TEXTS[k % len(D63_TEXTS)]
+				hit = _mk(vals[k % len(vals)], [None, '0.7', '0'][k % 3], [('x', txt)] if k % 4 else [('level', '1'), ('x', txt), ('y', 'z')])
+				els = [_mk(vals[(k + 1) % len(vals)], '0.3'), _mk(vals[(k + 2) % len(vals)], [None, '0.9'][k % 2])]
+				els.insert(pos, hit)
+				out.append(_d63_case(name, els))
+		for txt in (';Q=0.1', 'q=0.1', '; Q = high'):
+			out.append(_d63_case(name, [_mk(vals[0], '0.3'), _mk(vals[1], '0.7', [('x', txt)])]))
+		if name == 'Accept':
+			for txt in D63_TEXTS[:6]:
+				out.append(_d63_case(name, [_mk(vals[0], '0.3'), _mk(vals[1], '0.7', [], [('x', txt)]), _mk(vals[2])]))
 	return out
 
 
